@@ -104,5 +104,63 @@ func init() {
 		ex.setBool("c20FirstSelectCases", okFirst, true, "without always_standby the secondary first waits on {primDone -> return, primFailed, timer}")
 		ex.setBool("c20SecondSelectCases", okSecond, true, "with always_standby and an answer the secondary waits on {ctx, primDone, primFailed, timer}, then sends; an error sends nil")
 		ex.setBool("c20CollectLoop", okLoop, true, "the caller receives at most two results, the first non-nil wins, ctx ends the call, two nils -> ErrFailed")
+		// the threshold timer: borrowed from pkg/pool by the secondary goroutine and only ever received from
+		nGet, nRel, otherUse := 0, 0, false
+		ast.Inspect(f.Body, func(n ast.Node) bool {
+			switch x := n.(type) {
+			case *ast.AssignStmt:
+				if ex.str(x) == "timer := pool.GetTimer(f.fastFallbackDuration)" {
+					nGet++
+					return false
+				}
+			case *ast.DeferStmt:
+				if ex.str(x) == "defer pool.ReleaseTimer(timer)" {
+					nRel++
+					return false
+				}
+			case *ast.UnaryExpr:
+				if ex.str(x) == "<-timer.C" {
+					return false
+				}
+			case *ast.Ident:
+				if x.Name == "timer" {
+					otherUse = true
+				}
+			}
+			return true
+		})
+		ex.setBool("c20ThresholdTimerFromPool", nGet == 1 && nRel == 1 && !otherUse && contains(ss, "timer := pool.GetTimer(f.fastFallbackDuration)"), true,
+			"the secondary goroutine's threshold timer is `pool.GetTimer(f.fastFallbackDuration)`, released by a deferred `pool.ReleaseTimer`, and otherwise only received from")
+	})
+	// pkg/pool: what a released timer looks like when it is handed out again
+	factFuncs = append(factFuncs, func(ex *factExtractor) {
+		const rel = "pkg/pool/timer.go"
+		norm := func(b *ast.BlockStmt) string {
+			var xs []string
+			for _, s := range b.List {
+				xs = append(xs, strings.Join(strings.Fields(ex.str(s)), " "))
+			}
+			return strings.Join(xs, " ;; ")
+		}
+		rl := ex.fn(rel, "", "ReleaseTimer")
+		if rl == nil {
+			ex.setBool("c20ReleaseTimerDrains", false, false, "pool.ReleaseTimer not found")
+		} else {
+			got := norm(rl.Body)
+			drains := got == "if !timer.Stop() { select { case <-timer.C: default: } } ;; timerPool.Put(timer)"
+			bare := got == "timer.Stop() ;; timerPool.Put(timer)"
+			ex.setBool("c20ReleaseTimerDrains", drains, drains || bare,
+				"pool.ReleaseTimer: `if !timer.Stop() { select { case <-timer.C: default: } }` then `timerPool.Put(timer)` (false: a bare `timer.Stop()`)")
+		}
+		gt := ex.fn(rel, "", "GetTimer")
+		if gt == nil {
+			ex.setBool("c20GetTimerOnlyResets", false, false, "pool.GetTimer not found")
+		} else {
+			got := norm(gt.Body)
+			want := "timer, ok := timerPool.Get().(*time.Timer) ;; if !ok { return time.NewTimer(t) } ;; " +
+				"if timer.Reset(t) { panic(\"dispatcher.go getTimer: active timer trapped in timerPool\") } ;; return timer"
+			ex.setBool("c20GetTimerOnlyResets", got == want, true,
+				"pool.GetTimer: a new timer, or a pooled one after `timer.Reset(t)` and nothing else (its channel is not looked at)")
+		}
 	})
 }
